@@ -347,6 +347,9 @@ func (e *Engine) applyContract(fr *Frame, st *State, ins ssa.Instruction, c *Con
 		vars["result"] = SVal{V: res, T: resType}
 	}
 	for _, en := range c.Ensures {
+		if strings.Contains(en.Src, "local(") {
+			continue // a clause over the callee's locals is an obligation of the callee only; callers learn nothing from it
+		}
 		env := &SpecEnv{e: e, pre: old, post: st, vars: vars, pkg: pkg, allocBefore: allocBefore}
 		st.assume(env.evalBool(en.E))
 	}
@@ -656,7 +659,17 @@ func (e *Engine) defaultHavoc(fr *Frame, st *State, key string, cc *ssa.CallComm
 				_ = sl
 			}
 			if kindOf(t) == kIface {
-				// unknown dynamic type: the object behind an interface is not touched in the model (assumption)
+				// a pointer passed inside an interface (json.Unmarshal(data, &x), GetObject(key, &x)): when the dynamic
+				// type is known at the call site the pointee is havocked like a plain pointer argument; with an
+				// unknown dynamic type the object behind the interface is not touched in the model (assumption)
+				if len(a.Fs) == 2 && a.Fs[0].T != nil {
+					if id, ok := a.Fs[0].T.intVal(); ok && id.IsInt64() && typeIDTypes[id.Int64()] != nil {
+						dt := typeIDTypes[id.Int64()]
+						if _, isPtr := dt.Underlying().(*types.Pointer); isPtr {
+							e.havocObject(st, Val{T: a.Fs[1].T}, dt)
+						}
+					}
+				}
 				continue
 			}
 			e.havocObject(st, a, t)
